@@ -537,4 +537,88 @@ theorem folderEff_files (n : Node) (op : Op) (G : Folder) :
     by_cases hn : G.name = F <;> simp [hn, Folder.mapFile, mapNamed]
   all_goals simp
 
+
+/-! ### what the power phase can do to a software item -/
+
+/-- start-up / shut-down actions only move the operating state between RUNNING and STOPPED/CLOSED (never into or out
+of INSTALLING / RESTARTING bookkeeping) and can only turn UNUSED into GOOD. -/
+structure Sw.PowerRel (y x : Sw) : Prop where
+  same : Sw.Same y x
+  fixCd : y.fixCd = x.fixCd
+  auxCd : y.auxCd = x.auxCd
+  auxDur : y.auxDur = x.auxDur
+  installing : y.op = .installing ↔ x.op = .installing
+  actual : y.actual = x.actual ∨ (x.actual = .unused ∧ y.actual = .good)
+
+theorem Sw.PowerRel.refl (x : Sw) : Sw.PowerRel x x := ⟨.refl x, rfl, rfl, rfl, Iff.rfl, Or.inl rfl⟩
+theorem Sw.PowerRel.trans {a b c : Sw} (h1 : Sw.PowerRel a b) (h2 : Sw.PowerRel b c) : Sw.PowerRel a c := by
+  refine ⟨h1.same.trans h2.same, h1.fixCd.trans h2.fixCd, h1.auxCd.trans h2.auxCd, h1.auxDur.trans h2.auxDur,
+    h1.installing.trans h2.installing, ?_⟩
+  rcases h2.actual with e2 | ⟨u2, g2⟩
+  · rcases h1.actual with e1 | ⟨u1, g1⟩
+    · exact Or.inl (e1.trans e2)
+    · exact Or.inr ⟨e2 ▸ u1, g1⟩
+  · rcases h1.actual with e1 | ⟨u1, _⟩
+    · exact Or.inr ⟨u2, e1.trans g2⟩
+    · rw [g2] at u1; cases u1
+
+theorem Sw.wake_rel (x : Sw) : Sw.PowerRel x.wake x := by
+  unfold Sw.wake
+  split
+  · rename_i h; exact ⟨⟨rfl, rfl, rfl, rfl⟩, rfl, rfl, rfl, Iff.rfl, Or.inr ⟨h, rfl⟩⟩
+  · exact .refl x
+
+theorem Sw.startUp_rel (x : Sw) : Sw.PowerRel x.startUp x := by
+  have hw := x.wake_rel
+  unfold Sw.startUp
+  split
+  · split
+    · rename_i h
+      exact ⟨⟨hw.same.name, hw.same.isApp, hw.same.visible, hw.same.fixDur⟩, hw.fixCd, hw.auxCd, hw.auxDur,
+        Iff.intro (fun h' => by simp at h') (fun h' => by simp [h] at h'), hw.actual⟩
+    · exact .refl x
+  · split
+    · rename_i h
+      exact ⟨⟨hw.same.name, hw.same.isApp, hw.same.visible, hw.same.fixDur⟩, hw.fixCd, hw.auxCd, hw.auxDur,
+        Iff.intro (fun h' => by simp at h') (fun h' => by simp [h] at h'), hw.actual⟩
+    · exact .refl x
+
+theorem Sw.shutDown_rel (x : Sw) : Sw.PowerRel x.shutDown x := by
+  unfold Sw.shutDown
+  split
+  · split
+    · rename_i h
+      exact ⟨⟨rfl, rfl, rfl, rfl⟩, rfl, rfl, rfl, Iff.intro (fun h' => by simp at h') (fun h' => by simp [h] at h'), Or.inl rfl⟩
+    · exact .refl x
+  · split
+    · rename_i h
+      refine ⟨⟨rfl, rfl, rfl, rfl⟩, rfl, rfl, rfl, Iff.intro (fun h' => by simp at h') (fun h' => ?_), Or.inl rfl⟩
+      rcases h with h | h <;> simp [h] at h'
+    · exact .refl x
+
+theorem powerOnEff_rel (n : Node) (x : Sw) : Sw.PowerRel (powerOnEff n x) x := by
+  unfold powerOnEff; split
+  · exact x.startUp_rel
+  · exact .refl x
+
+theorem powerEff_rel (n : Node) (x : Sw) : Sw.PowerRel (powerEff n x) x := by
+  have hb : Sw.PowerRel (bootEff n x) x := by
+    unfold bootEff
+    split
+    · exact .refl x
+    · split
+      · exact x.startUp_rel
+      · exact .refl x
+  have hs : ∀ (m : Node) (y : Sw), Sw.PowerRel (shutEff m y) y := by
+    intro m y
+    unfold shutEff
+    split
+    · exact .refl y
+    · split
+      · split
+        · exact (powerOnEff_rel m y.shutDown).trans y.shutDown_rel
+        · exact y.shutDown_rel
+      · exact .refl y
+  exact (hs _ _).trans hb
+
 end Primaite.Health
